@@ -28,5 +28,33 @@ def handleTry : Handler := fun input impl =>
     | _, _ => .malformed "try parts"
   | _ => .malformed "try"
 
-def handlers : List (String × Handler) := [("C11.total", handleTotal), ("C11.try_instead", handleTry)]
+/-- request `((name superclass (events…) (properties…))… ) start (queries…)`, implementation `(bool…)` — `has_property`
+    for queries tagged `p`, `has_event` for `e` -/
+def handleClass : Handler := fun input impl =>
+  match input with
+  | .list [.list scs, sstart, .list sqs] =>
+    let cs : Option Roblox.Classes := scs.mapM fun c => match c with
+      | .list [n, sup, .list evs, .list props] => do
+        some (← n.asString?, { superclass := ← sup.asString?, events := ← evs.mapM Sexp.asString?, properties := ← props.mapM Sexp.asString? })
+      | _ => none
+    let qs : Option (List (Bool × String)) := sqs.mapM fun q => match q with
+      | .list [.atom "p", x] => do some (true, ← x.asString?)
+      | .list [.atom "e", x] => do some (false, ← x.asString?)
+      | _ => none
+    match cs, sstart.asString?, qs with
+    | some cs, some start, some qs =>
+      match Roblox.get cs start with
+      | none => .malformed "class start"
+      | some c =>
+        let m := qs.map fun (isProp, x) => if isProp then Roblox.hasProperty cs c x else Roblox.hasEvent cs c x
+        let mS := "(" ++ " ".intercalate (m.map fun b => if b then "true" else "false") ++ ")"
+        let cyclic := (Roblox.ancestry cs (cs.length + 1) c).length == cs.length + 1
+        { agree := mS == toString impl,
+          spec := if toString impl == "panic" then some "[C11] RobloxClass::has_property / has_event panicked" else none,
+          model := mS, tags := ["class-walk"] ++ (if cyclic then ["cyclic"] else ["acyclic"]) }
+    | _, _, _ => .malformed "class parts"
+  | _ => .malformed "class"
+
+def handlers : List (String × Handler) :=
+  [("C11.total", handleTotal), ("C11.try_instead", handleTry), ("C11.class", handleClass)]
 end Driver.C11
